@@ -49,6 +49,40 @@ def repo_hash():
     return h.hexdigest()[:16]
 
 
+class RunTimeout(Exception):
+    pass
+
+
+class time_limit:
+    """per-run wall-clock limit for harness workers (SIGALRM): a run of the implementation that does not return is cut off and the
+    monitors judge what was recorded up to that point"""
+
+    def __init__(self, seconds):
+        self.seconds = int(seconds)
+
+    def __enter__(self):
+        import signal
+
+        def handler(signum, frame):
+            raise RunTimeout(f"run did not finish within {self.seconds} s")
+        try:
+            self.old = signal.signal(signal.SIGALRM, handler)
+            signal.alarm(self.seconds)
+        except ValueError:   # not in the main thread
+            self.old = None
+        return self
+
+    def __exit__(self, *a):
+        import signal
+        if self.old is not None:
+            signal.alarm(0)
+            signal.signal(signal.SIGALRM, self.old)
+        return False
+
+
+RUN_LIMIT = int(os.environ.get("VERIF_RUN_LIMIT", "60"))
+
+
 # ----------------------------------------------------------------------------- translator
 def regen():
     """Re-run every translator front end on REPO's current sources.  Returns (errors, translated).
